@@ -61,6 +61,21 @@ def eval_scene(fam, s):
     if k == 'after-prelude':
         run_prelude()
         return eval_scene(fam, s[1])
+    if k == 'at-tolerance':
+        # the same invalid-input classes with the tolerance configured coarser or finer than the default: "well inside eps"
+        # means eps/1000 of the CURRENT eps
+        from Geometry3D import set_eps, set_sig_figures
+        global TINY
+        old = TINY
+        try:
+            (set_eps(10.0 ** -s[2]) if s[1] == 'set_eps' else set_sig_figures(s[2]))
+            TINY = 10.0 ** -(s[2] + 3)
+            cell, v = eval_scene(fam, s[3])
+            return 'eps=1e-%d|%s' % (s[2], cell), [Viol(x.sig.replace('C15|', 'C15|eps=1e-%d|' % s[2], 1), core.enc(s), x.expected, x.observed, x.msg) for x in v]
+        finally:
+            TINY = old
+            set_eps()
+            lib.assert_default_tolerance()
     if k == 'zero-length':
         ctor, form, p, axis = s[1], s[2], s[3], s[4]
         C = {'Line': Line, 'Segment': Segment, 'HalfLine': HalfLine}[ctor]
@@ -71,11 +86,11 @@ def eval_scene(fam, s):
             th = lambda: C(P, Vector(0.0, 0.0, 0.0))
         elif form == 'tiny-point':
             q = list(fp(p))
-            q[axis] += TINY
+            for ax in (range(3) if axis == 3 else (axis,)):
+                q[ax] += TINY
             th = lambda: C(P, Point(*q))
         else:
-            v = [0.0, 0.0, 0.0]
-            v[axis] = TINY
+            v = [TINY if axis in (ax, 3) else 0.0 for ax in range(3)]
             th = lambda: C(P, Vector(*v))
         return must_raise('zero-length-' + ctor, form, s, th)
     if k == 'polygon':
@@ -205,6 +220,17 @@ def families(tier):
                     sc.append(('zero-length', ctor, 'tiny-vector', q, ax))
     fams.append(ListFamily('zero-length', sc))
     fams.append(ListFamily('zero-length-after-legal-history', [('after-prelude', x) for x in sc[::7]]))
+    # tolerance configurations x zero-length classes (axis 3 = all three coordinates displaced together)
+    sct = []
+    for p in A.B0[:4]:
+        q = poses[-1].point(p)
+        for ctor in ('Line', 'Segment', 'HalfLine'):
+            inner = [('zero-length', ctor, 'same-point', q, 0), ('zero-length', ctor, 'zero-vector', q, 0)]
+            inner += [('zero-length', ctor, f, q, ax) for f in ('tiny-point', 'tiny-vector') for ax in (0, 1, 2, 3)]
+            for setter in ('set_eps', 'set_sig_figures'):
+                for k_ in ((4, 7, 12) if tier == 'quick' else range(3, 13)):
+                    sct += [('at-tolerance', setter, k_, x) for x in inner]
+    fams.append(ListFamily('zero-length-at-configured-tolerance', sct))
     # polygons
     sc = []
     box = A.B0 if tier == 'quick' else A.B1
